@@ -11,7 +11,7 @@ ENGINE = "gen_parser_method"
 
 RULE = ("programs = parser_method! invocations (strip_prefix, strip_suffix, find_skip, rfind_skip with match-like branches; "
         "trim_start_matches, trim_end_matches with pattern lists) over generated literal sets of 1..=4 alternatives (some "
-        "branches `a | b`), intended text <= 4 chars over {a b é 漢 😀 \\n \\t \\\\ \\0 ' \" U+00A0 #}, each char rendered raw or as "
+        "branches `a | b`), intended text <= 4 chars over {a b é 漢 😀 \\n \\t \\\\ \\0 ' \" U+00A0 #} (one char in seven: first / last scalar of a UTF-8 length or of a side of the surrogate gap), each char rendered raw or as "
         "an escape (\\n \\r \\t \\\\ \\0 \\' \\\", \\xNN, \\u{..} with 1-6 hex digits / leading zeros / either case), line "
         "continuations (optionally followed by a non-ASCII white-space char that rustc keeps), raw strings with 0-2 hashes, "
         "concat! (nested once), empty / duplicate / prefix-related alternatives; inputs (inside the program) = all strings "
@@ -183,6 +183,15 @@ pub fn run_all(progs: &[Prog]) {
 '''
 
 ALPHABET = ["a", "b", "é", "漢", "😀", "\n", "\t", "\\", "\0", "'", "\"", "\u00a0", "#"]
+# first / last scalar of every UTF-8 length and of each side of the surrogate gap (one char in seven): a literal decoder
+# or byte-pattern emitter with a hand-written length table is only wrong on these
+EDGE = ["\x7f", "\u0080", "\u07ff", "\u0800", "\ud7ff", "\ue000", "\uffff", "\U00010000", "\U0010ffff"]
+
+
+def pick(rng):
+    return rng.choice(EDGE) if rng.random() < 0.15 else rng.choice(ALPHABET)
+
+
 SIMPLE = {"\n": "\\n", "\t": "\\t", "\\": "\\\\", "\0": "\\0", "'": "\\'", "\"": "\\\"", "\r": "\\r"}
 
 
@@ -288,9 +297,9 @@ def gen_text(rng, maxlen=4):
     if rng.random() < 0.12:
         # long literal (beyond the exhaustive-ish bound): 9..40 chars
         n = rng.choice([9, 15, 16, 17, 24, 31, 32, 33, 40])
-        return "".join(rng.choice(ALPHABET) for _ in range(n))
+        return "".join(pick(rng) for _ in range(n))
     n = rng.choice([0, 1, 1, 2, 2, 3, 4][: maxlen + 3])
-    return "".join(rng.choice(ALPHABET) for _ in range(n))
+    return "".join(pick(rng) for _ in range(n))
 
 
 def gen_program(rng):
@@ -309,7 +318,7 @@ def gen_program(rng):
             elif k < 0.6:
                 t = t[rng.randint(0, len(t)):]
             elif k < 0.85:
-                t = t + rng.choice(ALPHABET)
+                t = t + pick(rng)
             texts.append(t)
         else:
             texts.append(gen_text(rng))
